@@ -177,3 +177,8 @@ Proof.
   intros L B. destruct (is_ok _) eqn:O; auto. apply is_ok_handler in O as (x&h'&H). cbn [handler] in H.
   unfold h_update_threshold in H. inv_ok H; rewrite len32_small in * by lia; lia.
 Qed.
+
+Ltac unfold_admin_in H :=
+  unfold h_accept_owner, h_add_messenger, h_remove_messenger, h_enable_attester, h_disable_attester, h_link_pair, h_unlink_pair,
+         h_set_bm, h_set_sr, h_update_owner, h_update_attester_manager, h_update_token_controller, h_update_pauser, h_update_max_body,
+         h_set_limit, h_update_threshold in H.
